@@ -97,10 +97,8 @@ func (f *Dovector) Call(s *slip.Scope, args slip.List, depth int) slip.Object {
 					}
 					return tr
 				case *cl.GoTo:
-					for i++; i < len(args); i++ {
-						if args[i] == tr.Tag {
-							break
-						}
+					if i = tr.Find(s, args, 1, depth); i < 0 {
+						return tr
 					}
 				}
 			}
